@@ -24,7 +24,7 @@ Diverge(e) ==
     IN  IF r.ok # Accepted(e)
         THEN \* a Cosmos transaction may fail for reasons outside the fee model (gas metering: code 11)
              IF e.route = "cosmos" /\ r.ok /\ e.res.code = 11 THEN {} ELSE D("accept/reject")
-        ELSE (IF \A w \in {"sender", "rcpt", "collector"} : BigEq(r.post[w], e.post[w]) THEN {} ELSE D("balances"))
+        ELSE (IF \A w \in DOMAIN e.post : BigEq(r.post[w], e.post[w]) THEN {} ELSE D("balances"))
              \cup (IF e.route = "eth" /\ r.ok /\ \E i \in Idx(e.msgs) : ~BigEq(r.used[i], e.msgs[i].resp.gasUsed) THEN D("gasUsed") ELSE {})
              \cup (IF e.route = "eth" /\ r.ok /\ \E i \in Idx(e.msgs) : r.failed[i] # e.msgs[i].resp.failed THEN D("vm outcome") ELSE {})
 
